@@ -32,7 +32,7 @@ ASSUMPTIONS = [
     "magnitudes below 2^53 bytes so that the implementation's float arithmetic is exact",
 ]
 MANIFEST = {
-    "level_text": "Machine-checked Lean 4 proofs over a model of virtual_memory()/calculate_avail_vmem()/swap_memory()/usage_percent() that starts from the TEXT of /proc/meminfo, /proc/zoneinfo and /proc/vmstat: round-trip theorems (parser ∘ kernel renderer = abstract map, for every entry list, padding, unit suffix, zone layout) and refinement of the documented formulas (C08_vm_refines, C08_swap_refines) for EVERY subset of the optional keys and all magnitudes, with corollaries fields_exact, used, avail_rule (absent or zero MemAvailable, watermark fallback exact incl. int() truncation), avail_in_range, percent (rounded to one decimal of the exact quotient), percent_range, never_fails, missing_warns_exactly, swap formulas/sysinfo fallback/zero totals. Tied to the code by 27 translator facts (keys per variable, factors, guards, prefixes, record layouts) feeding the proof obligation cfg_good, and by a differential run of the real front-end functions over a fake procfs rendered by the Lean renderers, exhaustive over all 16384 subsets of the optional keys.",
+    "level_text": "Machine-checked Lean 4 proofs over a model of virtual_memory()/calculate_avail_vmem()/swap_memory()/usage_percent() that starts from the TEXT of /proc/meminfo, /proc/zoneinfo and /proc/vmstat: round-trip theorems (parser ∘ kernel renderer = abstract map, for every entry list, padding, unit suffix, zone layout) and refinement of the documented formulas (C08_vm_refines, C08_swap_refines) for EVERY subset of the optional keys and all magnitudes, with corollaries fields_exact, used, avail_rule (absent or zero MemAvailable, watermark fallback exact incl. int() truncation), avail_in_range, percent (rounded to one decimal of the exact quotient), percent_range, never_fails, missing_warns_exactly, swap formulas/sysinfo fallback/zero totals. Tied to the code by 24 translator facts (keys per variable, factors, guards, prefixes, record layouts) feeding the proof obligation cfg_good, and by a differential run of the real front-end functions over a fake procfs rendered by the Lean renderers, exhaustive over all 16384 subsets of the optional keys.",
     "level_note": "Trusted: Lean kernel + {propext, Classical.choice, Quot.sound}; the translator; the correspondence harness; kernel-format renderers; float arithmetic modelled exactly (valid below 2^53 bytes). Hypotheses: MemTotal/MemFree present; vmstat names distinct and prefix-clash free.",
     "technique": "Lean 4 round-trip + refinement proofs (case analysis over key presence, linear arithmetic over Int/Rat) + translator-fed proof obligation + differential correspondence exhaustive over key subsets",
     "design_ref": "DESIGN.md §5 C08",
@@ -914,7 +914,10 @@ def corpus():
     base = [e("MemTotal", 1000), e("MemFree", 400)]
     fb = [e("Active(file)", 7), e("Inactive(file)", 8), e("SReclaimable", 5)]
     yield {"op": "vm", "entries": base, "zones": z, "pagesize": 4096}, "corpus:only_required"
-    yield {"op": "vm", "entries": base + fb, "zones": z, "pagesize": 4096}, "corpus:negative_estimate"
+    yield {"op": "vm", "entries": base + fb, "zones": z, "pagesize": 4096}, "corpus:watermark_estimate"
+    yield {"op": "vm", "entries": base + fb, "zones": [["low", 8, 5, 200]], "pagesize": 4096}, "corpus:negative_estimate"
+    yield {"op": "vm", "entries": [e("MemFree", 400), e("Cached", 3)], "zones": None, "pagesize": 4096}, "corpus:no_memtotal"
+    yield {"op": "vm", "entries": [e("MemTotal", 400), e("Cached", 3)], "zones": None, "pagesize": 4096}, "corpus:no_memfree"
     yield {"op": "vm", "entries": base + fb + [e("MemAvailable", 0)], "zones": [["low", 0, 0, 1]], "pagesize": 4096}, "corpus:memavailable_zero"
     yield {"op": "vm", "entries": base + [e("MemAvailable", 5000)], "zones": None, "pagesize": 4096}, "corpus:avail_gt_total"
     yield {"op": "vm", "entries": base + [e("Cached", 900), e("Buffers", 900)], "zones": None, "pagesize": 4096}, "corpus:used_negative"
